@@ -55,6 +55,9 @@ type Case struct {
 	Compat []string `json:"compatible_brands,omitempty"`
 	// size of the caller's bufio.Reader (0 = 8192)
 	Buf int `json:"bufio_size,omitempty"`
+	// how much of its reader every callback consumes: "" = all (io.ReadAll), "none", "half": whatever a callback leaves
+	// unread, the box must be closed behind it
+	CB string `json:"callbacks_read,omitempty"`
 }
 
 // placed is a node after layout.
@@ -271,7 +274,14 @@ func eval(c Case) (f *pbt.Fail) {
 		r := isobmff.NewReader(br)
 		grab := func(kind string, rd io.Reader) call {
 			cl := call{kind: kind, start: pos()}
-			cl.data, cl.readErr = io.ReadAll(rd)
+			switch c.CB {
+			case "none":
+			case "half":
+				all, err := io.ReadAll(io.LimitReader(rd, 37))
+				cl.data, cl.readErr = all, err
+			default:
+				cl.data, cl.readErr = io.ReadAll(rd)
+			}
 			cl.end = pos()
 			return cl
 		}
@@ -369,7 +379,11 @@ func eval(c Case) (f *pbt.Fail) {
 		if g.readErr != nil {
 			return pbt.Failf("callback-readall:"+wk, "io.ReadAll on the reader handed to the %s callback for box %q failed: %v (after %d of %d bytes)", wk, w.n.Type, g.readErr, len(g.data), w.cbEnd-w.cbStart)
 		}
-		if g.start != w.cbStart || g.end != w.cbEnd {
+		if c.CB != "" {
+			if g.start != w.cbStart || g.end > w.cbEnd {
+				return pbt.Failf("callback-range:"+wk, "%s callback for box %q: its reader started at file offset %d and was read to %d, the payload is [%d,%d)", wk, w.n.Type, g.start, g.end, w.cbStart, w.cbEnd)
+			}
+		} else if g.start != w.cbStart || g.end != w.cbEnd {
 			return pbt.Failf("callback-range:"+wk, "%s callback for box %q [%d,%d): its reader yielded file bytes [%d,%d), the payload is [%d,%d)", wk, w.n.Type, w.start, w.end, g.start, g.end, w.cbStart, w.cbEnd)
 		}
 		switch wk {
@@ -559,6 +573,7 @@ func genHeifItem(rt *rapid.T) Case {
 func genWell(rt *rapid.T) Case {
 	c := genWell0(rt)
 	c.Buf = rapid.SampledFrom([]int{0, 0, 4096, 4096, 16384}).Draw(rt, "bufio")
+	c.CB = rapid.SampledFrom([]string{"", "", "", "none", "half"}).Draw(rt, "callbacks-read")
 	return c
 }
 
